@@ -36,7 +36,7 @@ var justifications = map[string]string{
 	"NIL|pfcpiface.releaseAllocatedIPs|ippool.DeallocIP(session.localSEID)": "reached only for a PDR with allocIPFlag set, which parseUEAddressIE sets only after ippool.LookupOrAllocIP succeeded on a non-nil pool (secondary check R01.J5: the store of allocIPFlag is dominated by the nil check and the successful allocation)",
 	"IDX|pfcpiface.(*PFCPSession).MarkSessionQer|s.pdrs[i].qerIDList[:idx]":   "findItemIndex returns a value in [0, len(slice)] (loop index or len) and the use is guarded by idx != len(s.pdrs[i].qerIDList) (secondary check R01.J2 on findItemIndex's returns)",
 	"IDX|pfcpiface.(*PFCPSession).MarkSessionQer|s.pdrs[i].qerIDList[idx+1:]": "same guard as the previous line: idx < len, so idx+1 <= len",
-	"BLK|pfcpiface.(*PFCPConn).Shutdown|pConn.done <- rAddr":               "node-level completion channel with capacity 100, drained by PFCPNode.Serve; its stop-time behaviour is decided under C10 (R10.2/R10.3), not here",
+	"BLK|pfcpiface.(*PFCPConn).shutdownConn|pConn.done <- rAddr":           "node-level completion channel with capacity 100, drained by PFCPNode.Serve and, at stop, by waitForPFCPConns; never closed (C10 R10.2)",
 	"BLK|pfcpiface.(*bess).SendEndMarkers|b.endMarkerChan <- eMarker":        "channel of capacity 1024 created in SetUpfInfo; reported under C14/C10 scope only if the consumer loop is missing (R01.J3 checks that SetUpfInfo starts endMarkerSendLoop whenever end markers are enabled and the socket was dialled)",
 	"BLK|pfcpiface.(*UP4).SendEndMarkers|up4.endMarkerChan <- eMarker":       "channel of capacity 1024 created together with its consumer goroutine inside initOnce (R01.J3)",
 	"EXIT|pfcpiface.(*pdr).parseApplicationID|logger.PfcpLog.Fatalln(\"mismatch in App ID\", appID, apfd.appID)": "unreachable while every writer of PFCPConn.appPFDs stores a record whose appID equals its key (secondary check R01.J4 on the map's writers)",
